@@ -15,7 +15,7 @@ def uid_dir(uid):
     return b".Trash-%d" % uid
 
 
-def volume_layout(rng, w, uid, profile="mixed"):
+def volume_layout(rng, w, uid, profile="mixed", focus=None):
     """mount table + state of the shared/alt trash dirs of every volume; returns the volume list"""
     vols = [R]
     if rng.random() < 0.35:
@@ -28,7 +28,7 @@ def volume_layout(rng, w, uid, profile="mixed"):
     if R + b"/vol1" in vols and rng.random() < 0.3:
         w.mount(R + b"/vol1/nest")
         vols.append(R + b"/vol1/nest")
-    if rng.random() < 0.12:
+    if focus == "odd-mount" or rng.random() < 0.12:
         # a volume whose mount point has ".Trash-$uid" (and "files", "info") among its components: an image mounted inside
         # somebody's trash directory.  What a path is called decides nothing; only where $topdir/.Trash and .Trash-$uid ARE
         odd = R + b"/media/" + uid_dir(uid) + b"/files/image"
@@ -183,12 +183,13 @@ def spell(rng, w, entry, cwd, kind):
 HOME_NAMES = [b"u", b"u", b"u", b"jo(e", b"a[b", b"c+d", b"info", b"my info", b"{x}", b"$HOME"]
 
 
-def gen_put_world(rng, profile="mixed"):
+def gen_put_world(rng, profile="mixed", focus=None):
+    """focus: None, or one of "odd-mount", "long-nonutf8", "unknown-owner" - a rare ingredient of the worlds made certain"""
     w = W()
     uid = rng.choice([0, 1000, 1000, 65534])
     randints = [rng.randint(0, 65535) for _ in range(16)]
     home = w.dir(R + b"/home/" + rng.choice(HOME_NAMES))
-    vols = volume_layout(rng, w, uid, profile)
+    vols = volume_layout(rng, w, uid, profile, focus)
     env = {"HOME": home}
     x = rng.random()
     if x < 0.15:
@@ -228,13 +229,13 @@ def gen_put_world(rng, profile="mixed"):
     names = list(NAMES)
     rng.shuffle(names)
     long_name = None
-    if profile in ("collide", "mixed") and rng.random() < (0.3 if profile == "collide" else 0.06):
+    if focus == "long-nonutf8" or (profile in ("collide", "mixed") and rng.random() < (0.3 if profile == "collide" else 0.06)):
         # a base name of 246-255 bytes: "<name>.trashinfo" does not fit, trash-put shortens the name
         long_name = rng.choice([b"L", b"n"]) * rng.choice([246, 250, 255])
-        if rng.random() < 0.35:
+        if focus == "long-nonutf8" or rng.random() < 0.35:
             long_name = rng.choice([b"\xff", b"\xc3", b"caf\xe9"]) + long_name[4:]       # ... and no valid UTF-8 either
         names[0] = long_name
-    nargs = rng.choice([1, 1, 1, 2, 2, 3, 4])
+    nargs = rng.choice([1, 1, 1, 2, 2, 3, 4]) if focus != "long-nonutf8" else rng.choice([2, 3])
     if profile == "single":
         nargs = 1
         if opts.get("mode") == "interactive":
@@ -430,7 +431,7 @@ def gen_put_world(rng, profile="mixed"):
                         w.file(lex + b"/files/" + nm, b"decoy payload: nobody named this directory")
                         w.file(lex + b"/info/" + nm + b".trashinfo", b"[Trash Info]\nPath=/decoy\nDeletionDate=2020-01-01T00:00:00\n", 0o600)
                         w.file(lex + b"/files/" + nm + b"_1/inner", b"decoy dir")
-    if rng.random() < 0.2:
+    if focus == "unknown-owner" or rng.random() < 0.2:
         # what stands in the way of a trash directory (and the volume's top directory) belongs to a uid/gid without a passwd
         # or group entry: whoever looks the owner up, for a diagnostic say, finds no name
         for v in vols:
